@@ -2,9 +2,9 @@
 C02: the layers of the refinement of the brotli.Reader model put together.
 
 * `prefixSim`, `prefixCodesSim`: layers (d), (e) closed (no hypotheses left).
-* `compressedSim_of`: a compressed meta-block = header (`prefixCodesSim`) + commands (`CommandsSim`).
-* `refines_of_commands`: the refinement theorem for every byte string and every
-  schedule of Read sizes, from the simulation of the command loop (layer (f)).
+* `compressedSimZ`: a compressed meta-block = header (`prefixCodesSim`) + commands (`commands_sim`).
+* `refines_spec`: the refinement theorem for every byte string and every schedule of Read sizes;
+  `refines_uncompressed`: the same for streams of metadata/uncompressed meta-blocks, any dictionary.
 -/
 import Compress.Proofs.BrImplStream
 import Compress.Proofs.BrImplSimple
@@ -13,6 +13,7 @@ import Compress.Proofs.BrImplTable
 import Compress.Proofs.BrImplWalk
 import Compress.Proofs.BrImplFixed
 import Compress.Proofs.BrImplPC
+import Compress.Proofs.BrImplCmd
 
 namespace Compress.Proofs.BrImpl
 open Compress Compress.Brotli Compress.Brotli.Impl Compress.Window Compress.Proofs.Window
@@ -66,8 +67,9 @@ theorem CmdRel.congr {s s' : State} {h : Header} {c : Cmd} (hc : CmdRel s h c)
   · rw [e12.1, e12.2.1, e12.2.2.1, e12.2.2.2]; exact b7
 
 /-- a compressed meta-block: the header layer and the commands layer in sequence. -/
-theorem compressedSim_of (sd : ByteArray) (hCmd : CommandsSim sd) : CompressedSim sd := by
-  intro ws s1 st1 ds del mlen hR hbl hm1 hm2
+theorem compressedSimZ_of (sd : ByteArray) (hCmd : CommandsSimZ sd) : CompressedSimZ sd := by
+  intro ws s1 st1 ds del mlen _ hRZ hbl hm1 hm2
+  have hR := hRZ.toRel
   have hpc := prefixCodesSim ws s1 st1 ds del hR (by rw [hbl]; exact Int.natCast_nonneg _)
   unfold specCompressed
   rw [Dec_bind_apply]
@@ -96,7 +98,14 @@ theorem compressedSim_of (sd : ByteArray) (hCmd : CommandsSim sd) : CompressedSi
         { mlen := mlen, litB := litB, cmdB := cmdB, distB := distB,
           d1 := ds.d1, d2 := ds.d2, d3 := ds.d3, d4 := ds.d4 } :=
       hcr.congr rfl rfl rfl rfl rfl rfl rfl rfl rfl rfl rfl ⟨rfl, rfl, rfl, rfl⟩
+    have hout2 : st2.out = st1.out := by rw [hst2]; rfl
+    have hdinv : Compress.Proofs.BrCut.DistInv ws
+        { mlen := mlen, litB := litB, cmdB := cmdB, distB := distB,
+          d1 := ds.d1, d2 := ds.d2, d3 := ds.d3, d4 := ds.d4 } st2 := by
+      unfold Compress.Proofs.BrCut.DistInv
+      rw [hout2]; exact hRZ.dinv
     have hcmd := hCmd ws _ st2 ds del h _ hR2' hstep hcr' (by show s2.blkLen = _; rw [hbl2, hbl]) hm1 hm2 hc1 hc2 hc3
+      hRZ.ws2 (by show Zeros s2.dict; rw [hdict2]; exact hRZ.zeros) hdinv
     simp only [Dec_bind_apply]
     have hrem : remainingBits st2 = (.ok st2.bits.length, st2) := rfl
     rw [hrem]
@@ -110,15 +119,19 @@ theorem compressedSim_of (sd : ByteArray) (hCmd : CommandsSim sd) : CompressedSi
       exact hcmd (by omega)
     · rw [hrc] at hcmd
       simp only at hcmd ⊢
-      obtain ⟨X, s', hrun', hR', hs', hl', hb'⟩ := hcmd
-      exact ⟨X, s', hrun', hR', hs', by rw [hl']; exact hlast2, by omega⟩
+      obtain ⟨X, s', hrun', hR', hs', hl', hb', hz', hd'⟩ := hcmd
+      exact ⟨X, s', hrun', ⟨hR', hz', hd', hRZ.ws2⟩, hs', by rw [hl']; exact hlast2, by omega⟩
+
+/-- **(d)-(f)**: compressed meta-blocks, closed (for the 122,784-byte dictionary). -/
+theorem compressedSimZ (sd : ByteArray) (hsd : sd.size = 122784) : CompressedSimZ sd :=
+  compressedSimZ_of sd (commands_sim sd hsd)
 
 /-- the schedule-free form of the refinement: the trace of the reader model on `bytes`. -/
-theorem trace_of_commands (sd : ByteArray) (hCmd : CommandsSim sd) (bytes : List UInt8) :
+theorem trace_of_compressed (sd : ByteArray) (hC : CompressedSimZ sd) (bytes : List UInt8) :
     (∀ n, (decode sd bytes).verdict = .ok n → Trace sd (init bytes) (decode sd bytes).out.toList .eof) ∧
     ((∀ n, (decode sd bytes).verdict ≠ .ok n) → 8 * bytes.length + (decode sd bytes).out.size < 2 ^ 24 →
       ∃ X e, Trace sd (init bytes) X e ∧ e ≠ .eof ∧ Agree X (decode sd bytes).out.toList) := by
-  have hs := stream_sim sd winBitsSim (compressedSim_of sd hCmd) bytes
+  have hs := stream_sim sd winBitsSim hC bytes
   unfold decode decodeBits
   rcases hr : readStream sd { bits := Bits.ofBytes bytes, used := 0, out := #[] } with ⟨e | u, st'⟩
   · rw [hr] at hs
@@ -137,13 +150,12 @@ theorem trace_of_commands (sd : ByteArray) (hCmd : CommandsSim sd) (bytes : List
     have : X = st'.out.toList := by simpa using hX
     rw [← this]; exact T
 
-/-- **C02, from the command-loop layer.** For every byte string and every schedule of Read sizes:
-    accepted by the specification ⇒ the model delivers exactly the specification's output and ends with
-    `io.EOF`; rejected (and input bits + output bytes below 2^24, see `CommandsSim`) ⇒ the model ends
-    with another error, and what it delivered agrees with the specification's output position by
-    position; whatever the fuel, what has been delivered is a prefix of the final delivery. -/
-theorem refines_of_commands (sd : ByteArray) (hCmd : CommandsSim sd) (bytes : List UInt8) (sched : List Nat)
-    (hs : ∀ n, sched.getLast? = some n → 0 < n) :
+/-- a trace of the initial state, for every schedule of Read sizes. -/
+theorem refines_of_trace (sd : ByteArray) (bytes : List UInt8) (sched : List Nat)
+    (hs : ∀ n, sched.getLast? = some n → 0 < n)
+    (h1 : ∀ n, (decode sd bytes).verdict = .ok n → Trace sd (init bytes) (decode sd bytes).out.toList .eof)
+    (h2 : (∀ n, (decode sd bytes).verdict ≠ .ok n) → 8 * bytes.length + (decode sd bytes).out.size < 2 ^ 24 →
+      ∃ X e, Trace sd (init bytes) X e ∧ e ≠ .eof ∧ Agree X (decode sd bytes).out.toList) :
     (∀ n, (decode sd bytes).verdict = .ok n →
       (∀ fuel, (decode sd bytes).out.size + sched.length + 2 ≤ fuel →
         (run sd fuel bytes sched).1 = (decode sd bytes).out.toList ∧ (run sd fuel bytes sched).2.1 = some .eof) ∧
@@ -153,7 +165,6 @@ theorem refines_of_commands (sd : ByteArray) (hCmd : CommandsSim sd) (bytes : Li
         (∀ fuel, X.length + sched.length + 2 ≤ fuel →
           (run sd fuel bytes sched).1 = X ∧ (run sd fuel bytes sched).2.1 = some e) ∧
         (∀ fuel, (run sd fuel bytes sched).1 <+: X)) := by
-  obtain ⟨h1, h2⟩ := trace_of_commands sd hCmd bytes
   constructor
   · intro n hn
     have T := h1 n hn
@@ -165,5 +176,104 @@ theorem refines_of_commands (sd : ByteArray) (hCmd : CommandsSim sd) (bytes : Li
     refine ⟨X, e, he, ha, fun fuel hf => ?_, fun fuel => run_prefix sd bytes _ _ T sched fuel⟩
     obtain ⟨s', hr, _, _⟩ := run_of_trace sd bytes _ _ T sched hs fuel hf
     rw [hr]; exact ⟨rfl, rfl⟩
+
+/-- **C02, the refinement theorem.** For the 122,784-byte dictionary, every byte string and every
+    schedule of Read sizes: accepted by the specification ⇒ the model delivers exactly the
+    specification's output and ends with `io.EOF`; rejected (and input bits + output bytes below 2^24)
+    ⇒ the model ends with another error and what it delivered agrees with the specification's output
+    position by position; unfinished runs have delivered a prefix. -/
+theorem refines_spec (sd : ByteArray) (hsd : sd.size = 122784) (bytes : List UInt8) (sched : List Nat)
+    (hs : ∀ n, sched.getLast? = some n → 0 < n) :
+    (∀ n, (decode sd bytes).verdict = .ok n →
+      (∀ fuel, (decode sd bytes).out.size + sched.length + 2 ≤ fuel →
+        (run sd fuel bytes sched).1 = (decode sd bytes).out.toList ∧ (run sd fuel bytes sched).2.1 = some .eof) ∧
+      (∀ fuel, (run sd fuel bytes sched).1 <+: (decode sd bytes).out.toList)) ∧
+    ((∀ n, (decode sd bytes).verdict ≠ .ok n) → 8 * bytes.length + (decode sd bytes).out.size < 2 ^ 24 →
+      ∃ X e, e ≠ .eof ∧ Agree X (decode sd bytes).out.toList ∧
+        (∀ fuel, X.length + sched.length + 2 ≤ fuel →
+          (run sd fuel bytes sched).1 = X ∧ (run sd fuel bytes sched).2.1 = some e) ∧
+        (∀ fuel, (run sd fuel bytes sched).1 <+: X)) := by
+  obtain ⟨h1, h2⟩ := trace_of_compressed sd (compressedSimZ sd hsd) bytes
+  exact refines_of_trace sd bytes sched hs h1 h2
+
+/-- the stream meets only metadata and uncompressed meta-blocks. -/
+def UncompressedOnly (bytes : List UInt8) : Prop :=
+  ∀ w st1, readWindowBits { bits := Bits.ofBytes bytes, used := 0, out := #[] } = (.ok w, st1) → RawOnly st1
+
+theorem trace_uncompressed (sd : ByteArray) (bytes : List UInt8) (hU : UncompressedOnly bytes) :
+    (∀ n, (decode sd bytes).verdict = .ok n → Trace sd (init bytes) (decode sd bytes).out.toList .eof) ∧
+    ((∀ n, (decode sd bytes).verdict ≠ .ok n) → 8 * bytes.length + (decode sd bytes).out.size < 2 ^ 24 →
+      ∃ X e, Trace sd (init bytes) X e ∧ e ≠ .eof ∧ Agree X (decode sd bytes).out.toList) := by
+  have hs := stream_sim_uncompressed sd winBitsSim bytes hU
+  unfold decode decodeBits
+  rcases hr : readStream sd { bits := Bits.ofBytes bytes, used := 0, out := #[] } with ⟨e | u, st'⟩
+  · rw [hr] at hs
+    cases e with
+    | corrupt =>
+      refine ⟨fun n h => (by cases h), fun _ hcap => ?_⟩
+      obtain ⟨X, e, T, he, ha⟩ := hs hcap
+      exact ⟨X, e, T, he, by simpa using ha⟩
+    | unexpectedEOF =>
+      refine ⟨fun n h => (by cases h), fun _ hcap => ?_⟩
+      obtain ⟨X, e, T, he, ha⟩ := hs hcap
+      exact ⟨X, e, T, he, by simpa using ha⟩
+  · rw [hr] at hs
+    obtain ⟨X, T, hX⟩ := hs
+    refine ⟨fun n _ => ?_, fun h => absurd rfl (h st'.used)⟩
+    have : X = st'.out.toList := by simpa using hX
+    rw [← this]; exact T
+
+/-- **Layer (c), the refinement theorem restricted to streams of metadata and uncompressed
+    meta-blocks** — for any dictionary. -/
+theorem refines_uncompressed (sd : ByteArray) (bytes : List UInt8) (hU : UncompressedOnly bytes) (sched : List Nat)
+    (hs : ∀ n, sched.getLast? = some n → 0 < n) :
+    (∀ n, (decode sd bytes).verdict = .ok n →
+      (∀ fuel, (decode sd bytes).out.size + sched.length + 2 ≤ fuel →
+        (run sd fuel bytes sched).1 = (decode sd bytes).out.toList ∧ (run sd fuel bytes sched).2.1 = some .eof) ∧
+      (∀ fuel, (run sd fuel bytes sched).1 <+: (decode sd bytes).out.toList)) ∧
+    ((∀ n, (decode sd bytes).verdict ≠ .ok n) → 8 * bytes.length + (decode sd bytes).out.size < 2 ^ 24 →
+      ∃ X e, e ≠ .eof ∧ Agree X (decode sd bytes).out.toList ∧
+        (∀ fuel, X.length + sched.length + 2 ≤ fuel →
+          (run sd fuel bytes sched).1 = X ∧ (run sd fuel bytes sched).2.1 = some e) ∧
+        (∀ fuel, (run sd fuel bytes sched).1 <+: X)) := by
+  obtain ⟨h1, h2⟩ := trace_uncompressed sd bytes hU
+  exact refines_of_trace sd bytes sched hs h1 h2
+
+/-- the statement of C02 on the model in one piece: for enough fuel, the run ends with an error; it is
+    `io.EOF` exactly when the specification accepts; then the outputs are equal; in any case they agree
+    position by position. -/
+def RefinesSpec (sd : ByteArray) (bytes : List UInt8) (sched : List Nat) : Prop :=
+  ∃ N, ∀ fuel, N ≤ fuel →
+    Agree (run sd fuel bytes sched).1 (decode sd bytes).out.toList ∧
+    ((run sd fuel bytes sched).2.1 = some .eof ↔ ∃ n, (decode sd bytes).verdict = .ok n) ∧
+    ((run sd fuel bytes sched).2.1 = some .eof → (run sd fuel bytes sched).1 = (decode sd bytes).out.toList) ∧
+    (∃ e, (run sd fuel bytes sched).2.1 = some e)
+
+theorem refinesSpec_of (sd : ByteArray) (bytes : List UInt8) (sched : List Nat)
+    (hsmall : 8 * bytes.length + (decode sd bytes).out.size < 2 ^ 24)
+    (h : (∀ n, (decode sd bytes).verdict = .ok n →
+      (∀ fuel, (decode sd bytes).out.size + sched.length + 2 ≤ fuel →
+        (run sd fuel bytes sched).1 = (decode sd bytes).out.toList ∧ (run sd fuel bytes sched).2.1 = some .eof) ∧
+      (∀ fuel, (run sd fuel bytes sched).1 <+: (decode sd bytes).out.toList)) ∧
+    ((∀ n, (decode sd bytes).verdict ≠ .ok n) → 8 * bytes.length + (decode sd bytes).out.size < 2 ^ 24 →
+      ∃ X e, e ≠ .eof ∧ Agree X (decode sd bytes).out.toList ∧
+        (∀ fuel, X.length + sched.length + 2 ≤ fuel →
+          (run sd fuel bytes sched).1 = X ∧ (run sd fuel bytes sched).2.1 = some e) ∧
+        (∀ fuel, (run sd fuel bytes sched).1 <+: X))) :
+    RefinesSpec sd bytes sched := by
+  obtain ⟨h1, h2⟩ := h
+  by_cases hok : ∃ n, (decode sd bytes).verdict = .ok n
+  · obtain ⟨n, hn⟩ := hok
+    obtain ⟨ha, _⟩ := h1 n hn
+    refine ⟨(decode sd bytes).out.size + sched.length + 2, fun fuel hf => ?_⟩
+    obtain ⟨e1, e2⟩ := ha fuel hf
+    exact ⟨by rw [e1]; exact Agree.refl _, ⟨fun _ => ⟨n, hn⟩, fun _ => e2⟩, fun _ => e1, ⟨_, e2⟩⟩
+  · have hno : ∀ n, (decode sd bytes).verdict ≠ .ok n := fun n hn => hok ⟨n, hn⟩
+    obtain ⟨X, e, he, hag, hrun, _⟩ := h2 hno hsmall
+    refine ⟨X.length + sched.length + 2, fun fuel hf => ?_⟩
+    obtain ⟨e1, e2⟩ := hrun fuel hf
+    refine ⟨by rw [e1]; exact hag, ⟨fun h => ?_, fun h => absurd h hok⟩, fun h => ?_, ⟨_, e2⟩⟩
+    · rw [e2] at h; exact absurd (Option.some.inj h) he
+    · rw [e2] at h; exact absurd (Option.some.inj h) he
 
 end Compress.Proofs.BrImpl
